@@ -31,6 +31,8 @@ type Ctx struct {
 	sideFact    func(term string, t types.Type, alloc string) // receives typing facts of ground heap reads in specifications
 	sideSeen    map[string]bool
 	assuming    string    // reach condition while a callee postcondition is being assumed (else "")
+	rawFact     func(string) // adds a fact to the generator's fact list
+	presSeen    map[string]bool
 	presRels    []presRel // assumed "preserved(heap)" relations between heap versions (for light-query instances)
 	entryTyped  map[string]bool
 	etypeSorts  map[string]bool // element sorts shared by slices of different element types in this function
@@ -51,7 +53,7 @@ type specInst struct {
 }
 
 // presRel: cur[r] == old[r] for r <= alloc; with except != "" element-wise: cur[r][j] == old[r][j] unless except(r!, j!)
-type presRel struct{ cur, old, alloc, reach, except string }
+type presRel struct{ key, cur, old, alloc, reach, except string }
 
 func newCtx(prog *Program, cs *ContractSet, pkg *types.Package, fmode string) *Ctx {
 	return &Ctx{prog: prog, cs: cs, pkg: pkg, fmode: fmode,
